@@ -188,6 +188,10 @@ class DummyTable(Table):
 
         # N.B., we want this to be stable, i.e., same data each time
         pyrandom.seed(seed)
+        # the field functions draw from the global generator, so keep the
+        # state of this iterator and restore it before each row, otherwise
+        # another iterator (or any other user) would change the data
+        state = pyrandom.getstate()
 
         # construct header row
         hdr = tuple(text_type(f) for f in fields.keys())
@@ -198,7 +202,10 @@ class DummyTable(Table):
             # artificial delay
             if self.wait:
                 time.sleep(self.wait)
-            yield tuple(fields[f]() for f in fields)
+            pyrandom.setstate(state)
+            row = tuple(fields[f]() for f in fields)
+            state = pyrandom.getstate()
+            yield row
 
     def reseed(self):
         self.seed = randomseed()
